@@ -1360,3 +1360,89 @@ func withHelpers(fn *ssa.Function, d int) []*ssa.Function {
 	walk(fn, d)
 	return out
 }
+
+// reachFlagAware: can `to` be reached after taking the edge pred→start? Like reachAvoiding, but a loop steered by a boolean flag is followed the way it runs:
+// boolean values that are constants on the path taken (`finished = true` in a branch, merged by phis further on) are
+// carried along, and an `if` on such a value (or its negation) is only followed on the side it takes. `for !done { …
+// if stop { done = true } }` is then left after a stop, where plain reachability sees a way back into the body.
+func reachFlagAware(pred, start *ssa.BasicBlock, to ssa.Instruction) bool {
+	tp := posOf(to)
+	type key struct {
+		pred, b *ssa.BasicBlock
+		env     string
+	}
+	seen := map[key]bool{}
+	sig := func(env map[ssa.Value]bool) string {
+		var parts []string
+		for v, b := range env {
+			parts = append(parts, fmt.Sprintf("%s=%v", v.Name(), b))
+		}
+		sort.Strings(parts)
+		return strings.Join(parts, ",")
+	}
+	var visit func(pred, b *ssa.BasicBlock, env map[ssa.Value]bool) bool
+	visit = func(pred, b *ssa.BasicBlock, env map[ssa.Value]bool) bool {
+		// phis of b, seen from pred
+		next := map[ssa.Value]bool{}
+		for k, v := range env {
+			next[k] = v
+		}
+		pi := -1
+		for i, p := range b.Preds {
+			if p == pred {
+				pi = i
+			}
+		}
+		for _, in := range b.Instrs {
+			ph, ok := in.(*ssa.Phi)
+			if !ok {
+				break
+			}
+			delete(next, ph)
+			if pi < 0 || pi >= len(ph.Edges) {
+				continue
+			}
+			e := ph.Edges[pi]
+			if k, isK := e.(*ssa.Const); isK && k.Value != nil && (k.Value.String() == "true" || k.Value.String() == "false") {
+				next[ph] = k.Value.String() == "true"
+			} else if val, known := env[e]; known {
+				next[ph] = val
+			}
+		}
+		kk := key{pred, b, sig(next)}
+		if seen[kk] {
+			return false
+		}
+		seen[kk] = true
+		for i := range b.Instrs {
+			if b == tp.b && i == tp.i {
+				return true
+			}
+		}
+		succs := b.Succs
+		if ifi, ok := b.Instrs[len(b.Instrs)-1].(*ssa.If); ok {
+			v, neg := ifi.Cond, false
+			for {
+				if u, isU := v.(*ssa.UnOp); isU && u.Op == token.NOT {
+					v, neg = u.X, !neg
+					continue
+				}
+				break
+			}
+			if val, known := next[v]; known {
+				if val != neg {
+					succs = []*ssa.BasicBlock{b.Succs[0]}
+				} else {
+					succs = []*ssa.BasicBlock{b.Succs[1]}
+				}
+			}
+		}
+		for _, s := range succs {
+			if visit(b, s, next) {
+				return true
+			}
+		}
+		return false
+	}
+	return visit(pred, start, map[ssa.Value]bool{})
+}
